@@ -213,7 +213,8 @@ class GetHeaderValue(Contract):
         return rep
 
     def samples(self, tier):
-        return [dict(value=v, environ=e) for v in ("abc", "$TOKEN", "$MISSING", "", "$") for e in ({"TOKEN": "secret"}, {"TOKEN": ""}, {})]
+        return [dict(value=v, environ=e) for v in ("abc", "$TOKEN", "$MISSING", "", "$", "$token_v2", "$Api-Key", "$A1", "Bearer $TOKEN")
+                for e in ({"TOKEN": "secret", "token_v2": "s2", "Api-Key": "k", "A1": "a"}, {"TOKEN": ""}, {})]
 
 
 
